@@ -18,7 +18,7 @@ fn try_compile_on(schema_name: &str, text: &str) -> Result<bool, String> {
         .map_err(|p| p.downcast_ref::<String>().cloned().or_else(|| p.downcast_ref::<&str>().map(|s| s.to_string())).unwrap_or_default())
 }
 
-// @grid c10_grid_frontend_never_panics tier=quick bound="about 15000 documents: 0..3 operations and fragments; every sequence of up to 3 directives from a 17-element alphabet (valid, duplicated, malformed arguments) on a property, on an edge and on a fold; the repository's parse-error / frontend-error corpora; every kind of field name (property, list property, edge, parameterized edge, __typename, __schema, type name, unknown) x 8 selection shapes x 8 decorations at the root, nested, under a coercion and inside a fold; 22 filter operators x 14 property types x 8 argument forms (variables, tags of 5 types, malformed) on the nullables schema, shared variables, count filters; 12 erroneous selections alone, before, after and inside a fold next to 6 valid siblings that use an outer tag, and in pairs; truncations of valid queries at every byte"
+// @grid c10_grid_frontend_never_panics tier=quick bound="about 15000 documents: 0..3 operations and fragments; every sequence of up to 3 directives from a 17-element alphabet (valid, duplicated, malformed arguments) on a property, on an edge and on a fold; the repository's parse-error / frontend-error corpora; every kind of field name (property, list property, edge, parameterized edge, __typename, __schema, type name, unknown) x 8 selection shapes x 8 decorations at the root, nested, under a coercion and inside a fold; 22 filter operators x 14 property types x 8 argument forms (variables, tags of 5 types, malformed) on the nullables schema, shared variables, count filters; 18 literal kinds as edge and directive arguments in 6 positions; 12 x 12 pairs of outputs with one name in 3 scopes; filters on a 30-deep list type; 19 fragment-spread / inline-fragment positions x 4 document shapes; 12 erroneous selections alone, before, after and inside a fold next to 6 valid siblings that use an outer tag, and in pairs; truncations of valid queries at every byte"
 // @ob for every document of the family, compiling against a valid schema returns Ok or Err and does not panic
 pub(crate) fn c10_grid_frontend_never_panics() {
     let mut n = 0u64;
@@ -61,7 +61,7 @@ pub(crate) fn c10_grid_frontend_never_panics() {
         check(&format!("directives after a fold count `{s}`"), &format!(r#"{{ Number(max: 3) {{ value @output(name: "v0") multiple(max: 2) @fold @transform(op: "count") {s} {{ value @output(name: "mv") }} }} }}"#), &mut failures);
         n += 4;
     }
-    // 3. the repository's error corpora and every kind of field name (property, list property, edge, parameterized edge, __typename, __schema, type name, unknown) x 8 selection shapes x 8 decorations at the root, nested, under a coercion and inside a fold; 22 filter operators x 14 property types x 8 argument forms (variables, tags of 5 types, malformed) on the nullables schema, shared variables, count filters; 12 erroneous selections alone, before, after and inside a fold next to 6 valid siblings that use an outer tag, and in pairs; truncations of valid queries
+    // 3. the repository's error corpora and every kind of field name (property, list property, edge, parameterized edge, __typename, __schema, type name, unknown) x 8 selection shapes x 8 decorations at the root, nested, under a coercion and inside a fold; 22 filter operators x 14 property types x 8 argument forms (variables, tags of 5 types, malformed) on the nullables schema, shared variables, count filters; 18 literal kinds as edge and directive arguments in 6 positions; 12 x 12 pairs of outputs with one name in 3 scopes; filters on a 30-deep list type; 19 fragment-spread / inline-fragment positions x 4 document shapes; 12 erroneous selections alone, before, after and inside a fold next to 6 valid siblings that use an outer tag, and in pairs; truncations of valid queries
     for dir in ["parse_errors", "frontend_errors"] {
         let mut names: Vec<String> = std::fs::read_dir(format!("test_data/tests/{dir}")).unwrap().filter_map(|e| e.ok()).map(|e| e.file_name().to_string_lossy().to_string()).filter(|n| n.ends_with(".graphql.ron")).collect();
         names.sort();
@@ -73,6 +73,69 @@ pub(crate) fn c10_grid_frontend_never_panics() {
     }
     let valid = r#"{ Number(min: 0, max: 3) { value @output @tag(name: "v") multiple(max: 3) @fold @transform(op: "count") @filter(op: ">", value: ["$x"]) @output(name: "c") { value @filter(op: ">", value: ["%v"]) @output(name: "m") } } }"#;
     for cut in 0..valid.len() { if valid.is_char_boundary(cut) { check(&format!("truncation at byte {cut}"), &valid[..cut], &mut failures); n += 1; } }
+    // 3b. fragment spreads and inline fragments in every position
+    let frag = "fragment foo on Number { value @output(name: \"fv\") }";
+    let spots = [
+        "...foo", "... on Prime { ...foo }", "... on Prime { value @output ...foo }", "... { ...foo }", "... { value @output ...foo }", "... on Prime { ... on Prime { ...foo } }",
+        "successor { ...foo }", "successor { ... on Prime { ...foo } }", "successor @fold { ...foo }", "successor @optional { ... { ...foo } }", "...foo ...foo", "... on Prime { ...bar }",
+        "... on Prime @optional { value @output }", "... on Prime @fold { value @output }", "... @filter(op: \"=\", value: [\"$x\"]) { value @output }", "... on Prime { } ", "... on Prime", "...", "... on { value }",
+    ];
+    for spot in spots {
+        vk::grid_case(format_args!("fragment position `{}`", spot));
+        for doc in [format!("{{ Number(max: 3) {{ {spot} }} }} {frag}"), format!("{{ Number(max: 3) {{ {spot} }} }}"), format!("{frag} {{ Number(max: 3) {{ value @output(name: \"v0\") {spot} }} }}"), format!("{{ {spot} }} {frag}")] {
+            check(&format!("fragment position `{spot}`"), &doc, &mut failures); n += 1;
+        }
+    }
+    // 3c. every kind of GraphQL literal as an edge argument, on the entry edge and on an inner edge
+    let literals = ["FOO", "null", "1.5", "\"s\"", "true", "-1", "99999999999999999999", "-99999999999999999999", "1e400", "[FOO]", "[1, FOO]", "[[1]]", "[]", "{a: FOO}", "{}", "$v", "[$v]", "\"\"\"block\"\"\""];
+    for lit in literals {
+        vk::grid_case(format_args!("argument literal `{}`", lit));
+        check(&format!("entry edge argument {lit}"), &format!("{{ Number(max: {lit}) {{ value @output }} }}"), &mut failures);
+        check(&format!("entry edge arguments 1, {lit}"), &format!("{{ Number(min: 1, max: {lit}) {{ value @output }} }}"), &mut failures);
+        check(&format!("inner edge argument {lit}"), &format!("{{ Number(max: 2) {{ value @output multiple(max: {lit}) {{ value @output(name: \"m\") }} }} }}"), &mut failures);
+        check(&format!("folded edge argument {lit}"), &format!("{{ Number(max: 2) {{ value @output successor {{ multiple(max: {lit}) @fold {{ value @output(name: \"m\") }} }} }} }}"), &mut failures);
+        check(&format!("unexpected argument {lit}"), &format!("{{ Number(max: 2) {{ value @output successor(x: {lit}) {{ value @output(name: \"m\") }} }} }}"), &mut failures);
+        check(&format!("directive argument {lit}"), &format!("{{ Number(max: 2) {{ value @output(name: {lit}) @tag(name: {lit}) @filter(op: {lit}, value: {lit}) }} }}"), &mut failures);
+        n += 6;
+    }
+    // 3d. the same output name used twice, for every pair of kinds of output and every relative position
+    let outs = [
+        r#"value @output(name: "x")"#, r#"name @output(name: "x")"#, r#"x: value @output"#,
+        r#"multiple(max: 3) @fold @transform(op: "count") @output(name: "x")"#, r#"a: multiple(max: 3) @fold @transform(op: "count") @output(name: "x")"#,
+        r#"b: multiple(max: 3) @fold { value @output(name: "x") }"#, r#"predecessor @fold { value @output(name: "x") }"#, r#"predecessor @fold { x: value @output }"#,
+        r#"c: multiple(max: 2) @fold { value @fold @transform(op: "count") @output(name: "x") }"#, r#"d: multiple(max: 2) @fold { divisor @fold @transform(op: "count") @output(name: "x") }"#,
+        r#"successor { value @output(name: "x") }"#, r#"successor @optional { e: multiple(max: 2) @fold @transform(op: "count") @output(name: "x") }"#,
+    ];
+    for (i, a) in outs.iter().enumerate() { for (j, b) in outs.iter().enumerate() {
+        vk::grid_case(format_args!("duplicate outputs {} {}", i, j));
+        let b2 = b.replacen("a:", "a2:", 1).replacen("b:", "b2:", 1).replacen("c:", "c2:", 1).replacen("d:", "d2:", 1).replacen("e:", "e2:", 1);
+        check(&format!("duplicate output names `{a}` and `{b2}`"), &format!("{{ Number(max: 2) {{ {a} {b2} }} }}"), &mut failures);
+        check(&format!("duplicate output names nested `{a}` and `{b2}`"), &format!("{{ Number(max: 2) {{ successor {{ {a} {b2} }} }} }}"), &mut failures);
+        check(&format!("duplicate output names in a fold `{a}` and `{b2}`"), &format!("{{ Number(max: 2) {{ value @output(name: \"v0\") f: multiple(max: 2) @fold {{ {a} {b2} }} }} }}"), &mut failures);
+        n += 3;
+    } }
+    // 3e. list types at the maximum nesting depth the schema accepts
+    {
+        let mut deep = String::from("Int");
+        for _ in 0..30 { deep = format!("[{deep}]"); }
+        let text = std::fs::read_to_string("test_data/schemas/numbers.graphql").unwrap();
+        let header: String = text.split("type RootSchemaQuery").next().unwrap().to_string();
+        let custom = format!("{header}type RootSchemaQuery {{ Thing(ids: [Int]): [Thing!] }}\ntype Thing {{ deep: {deep}  name: String  other(xs: [Int]): [Thing!] }}\n");
+        if let Ok(custom) = crate::schema::Schema::parse(&custom) {
+            for op in ["=", "!=", "<", "one_of", "not_one_of", "contains", "not_contains", "is_null", "has_prefix", "regex"] {
+                for value in [r#", value: ["$x"]"#, r#", value: ["%t"]"#, ""] {
+                    vk::grid_case(format_args!("deep list filter {} {}", op, value));
+                    let q = format!(r#"{{ Thing {{ deep @tag(name: "t") @output(name: "o0") other {{ deep @filter(op: "{op}"{value}) name @output }} }} }}"#);
+                    let outcome = std::panic::catch_unwind(std::panic::AssertUnwindSafe(|| crate::frontend::parse(&custom, q.as_str()).is_ok()));
+                    if let Err(p) = outcome {
+                        let m = p.downcast_ref::<String>().cloned().or_else(|| p.downcast_ref::<&str>().map(|s| s.to_string())).unwrap_or_default();
+                        failures.insert(format!("filter `{op}`{value} on a 30-deep list property: panic({})", m.lines().next().unwrap_or("")));
+                    }
+                    n += 1;
+                }
+            }
+        }
+    }
     // 4. every kind of field name in every position and shape
     let fields = ["value", "name", "vowelsInName", "successor", "multiple(max: 2)", "multiple", "__typename", "__schema", "nonexistent", "Number", "Number(max: 2)", "Zero", "primeFactor", "value(max: 2)"];
     let shapes = ["", "{ value @output }", "{ ... on Prime { value @output } }", "{ ... on Letter { name @output } }", "{ __typename @output }", "{ }", "{ successor { value @output } }", "{ ... on Number { ... on Prime { value @output } } }"];
@@ -154,6 +217,6 @@ pub(crate) fn c10_grid_frontend_never_panics() {
             let e = classes.entry(msg.trim_end_matches(')').to_string()).or_insert((0, label.to_string()));
             e.0 += 1;
         }
-        panic!("the frontend panicked: {{{}}}", classes.into_iter().map(|(m, (c, l))| format!("panic({m}) on {c} documents, first: {l}")).collect::<Vec<_>>().join("; "));
+        panic!("the frontend panicked: {{{}}}", classes.into_iter().map(|(m, (c, l))| format!("panic({m}) on {c} documents, first: {l}")).collect::<Vec<_>>().join("; ").replace('"', "'"));
     }
 }
